@@ -477,7 +477,10 @@ def ev(e, env, funcs=None):
         if isinstance(e.func, ast.Name) is False and isinstance(e.func, ast.Attribute) and isinstance(e.func.value, ast.Name) \
                 and funcs and (e.func.value.id + '.' + e.func.attr) in funcs and e.func.value.id[:1].isupper() and not e.keywords:
             # Class.method(obj) style with an oracle
-            return funcs[e.func.value.id + '.' + e.func.attr](*[ev(a, env, funcs) for a in e.args])
+            f_ = funcs[e.func.value.id + '.' + e.func.attr]
+            if getattr(f_, '_wants_env', False):
+                return f_(env, *[ev(a, env, funcs) for a in e.args][(0 if getattr(f_, '_static', True) else 1):])
+            return f_(*[ev(a, env, funcs) for a in e.args])
         if isinstance(e.func, ast.Attribute) and e.func.attr in _STR_METHODS and not e.keywords:
             try:
                 recv = ev(e.func.value, env, funcs)
@@ -490,6 +493,8 @@ def ev(e, env, funcs=None):
             r, m = call_target(e)
             key = (r + '.' + m) if r else m
             if key in funcs:
+                if getattr(funcs[key], '_wants_env', False):
+                    return funcs[key](env, *[ev(a, env, funcs) for a in e.args])
                 return funcs[key](*[ev(a, env, funcs) for a in e.args])
         raise NotClosed('call ' + ast.unparse(e)[:40])
     raise NotClosed(type(e).__name__)
